@@ -320,6 +320,48 @@ pub async fn run(out: &mut Out) {
         if r != "ok" {
             out.oracle_fail("healthy-upstream-fails", &format!("quic connector against the in-process upstream: {} after {} ms", r, ms));
         }
+        // a request to a silent origin times out at the connector; a tunnel to a healthy origin over the same connector
+        // (the same shared QUIC connection) must not notice
+        {
+            let ctx = w.state.contexts.create_context("x".into(), "127.0.0.1:1".parse().unwrap()).await;
+            ctx.write().await.set_target(target.clone()).set_feature(Feature::TcpForward);
+            let opened = tokio::time::timeout(std::time::Duration::from_secs(13), q.clone().connect(w.state.clone(), ctx.clone())).await;
+            let mut healthy = None;
+            if let Ok(Ok(())) = opened {
+                let mut g = ctx.write().await;
+                let (a, _b) = tokio::io::duplex(16);
+                g.set_client_stream(make_buffered_stream(a));
+                healthy = g.take_streams().map(|x| (x.1, _b));
+            }
+            let ping = |tag: &'static [u8; 4]| tag;
+            let mut alive_before = false;
+            if let Some((srv, _)) = healthy.as_mut() {
+                let _ = srv.write_all(ping(b"pin1")).await;
+                let _ = srv.flush().await;
+                let mut b = [0u8; 4];
+                alive_before = matches!(tokio::time::timeout(std::time::Duration::from_secs(3), srv.read_exact(&mut b)).await, Ok(Ok(_))) && &b == b"pin1";
+            }
+            let (slow, ms) = attempt(&w, &q, TargetAddress::DomainPort("silent.example".into(), 80), 13000).await;
+            let mut alive_after = false;
+            if let Some((srv, _)) = healthy.as_mut() {
+                let _ = srv.write_all(ping(b"pin2")).await;
+                let _ = srv.flush().await;
+                let mut b = [0u8; 4];
+                alive_after = matches!(tokio::time::timeout(std::time::Duration::from_secs(3), srv.read_exact(&mut b)).await, Ok(Ok(_))) && &b == b"pin2";
+            }
+            let (next, _) = attempt(&w, &q, target.clone(), 13000).await;
+            out.case("Q silent-origin", &format!("slow-request={} healthy-tunnel={}{} next={}", slow, alive_before as u8, alive_after as u8, next));
+            out.stat("quic_silent_origin");
+            if slow == "hang" || slow == "ok" {
+                out.oracle_fail(if slow == "hang" { "attempt-hangs" } else { "success-without-upstream" }, &format!("quic connector, origin silent behind a live upstream: {} after {} ms", slow, ms));
+            }
+            if alive_before && !alive_after {
+                out.oracle_fail("other-tunnel-disturbed", "quic connector: a tunnel to a healthy origin was torn down when a request to a silent origin timed out on the same upstream");
+            }
+            if !alive_before || next != "ok" {
+                out.oracle_fail("no-recovery", &format!("quic connector around a timed-out request: healthy tunnel opened = {}, next request = {}", alive_before, next));
+            }
+        }
         for round in 0..2 {
             if let Some(e) = ep.take() {
                 e.close(0u32.into(), b"maintenance");
@@ -359,7 +401,14 @@ async fn quic_upstream(port: u16) -> Option<quinn::Endpoint> {
     };
     let mut crypto = rustls::ServerConfig::builder().with_safe_defaults().with_no_client_auth().with_single_cert(certs, key).ok()?;
     crypto.alpn_protocols = vec![b"h11c".to_vec()];
-    let cfg = quinn::ServerConfig::with_crypto(Arc::new(crypto));
+    let mut cfg = quinn::ServerConfig::with_crypto(Arc::new(crypto));
+    {
+        // like the project's own QUIC listener: the default idle timeout (10 s) would close an idle shared connection by itself
+        let mut t = quinn::TransportConfig::default();
+        t.max_idle_timeout(Some(std::time::Duration::from_secs(3600).try_into().unwrap()));
+        t.keep_alive_interval(Some(std::time::Duration::from_secs(30)));
+        cfg.transport = Arc::new(t);
+    }
     let mut ep = None;
     for _ in 0..50 {
         match quinn::Endpoint::server(cfg.clone(), format!("127.0.0.1:{}", port).parse().unwrap()) {
@@ -385,6 +434,11 @@ async fn quic_upstream(port: u16) -> Option<quinn::Endpoint> {
                                     Ok(Some(1)) => head.push(b[0]),
                                     _ => return,
                                 }
+                            }
+                            if head.starts_with(b"CONNECT silent.example") {
+                                // an origin that swallows the connection attempt: this upstream never answers the CONNECT
+                                tokio::time::sleep(std::time::Duration::from_secs(3600)).await;
+                                return;
                             }
                             let _ = tx.write_all(b"HTTP/1.1 200 OK\r\n\r\n").await;
                             let mut buf = [0u8; 4096];
